@@ -3,7 +3,7 @@ from hypothesis import strategies as st
 
 from ..runner import Violation, unexpected, digest
 from ..ref import bech32 as R, compact as RC
-from .. import libx
+from .. import libx, gen
 
 from bitcoin import segwit_addr as SA
 from bitcoin.bech32 import CBech32Data, Bech32Error
@@ -89,7 +89,7 @@ def faults(s, hrp, case, cls):
     alphabet = CH + 'bio1BIO!Q \x7f\x00é'
     if case.get('single', True):
         for i in range(L):
-            for c in alphabet:
+            for c in alphabet + ''.join(gen.confusables(s[i])):      # incl. look-alikes of the character at this position
                 if c != s[i]:
                     t = s[:i] + c + s[i + 1:]
                     cmp_decode(hrp, t, must_reject=True, cls=cls, tag='sub1')
@@ -114,6 +114,11 @@ def faults(s, hrp, case, cls):
         cmp_decode(hrp, ''.join(t), must_reject=True, cls=cls, tag='sub%d' % len(idx))
         n += 1
     if case.get('patterns', True):
+        # the same data under the checksum constant of another code (Bech32m and two arbitrary ones): not a BIP173 string
+        data5 = [CH.index(c) for c in s[dp:-6]]
+        for const in (0x2bc830a3, 0, 0x3fffffff):
+            cmp_decode(hrp, raw_string(hrp, data5, const), must_reject=True, cls=cls, tag='othercode')
+            n += 1
         cmp_decode(hrp, s.upper(), same_as=orig if hrp.upper().lower() == hrp else None, cls=cls, tag='upper')
         for i in range(L):
             if s[i].isalpha():
@@ -188,9 +193,10 @@ def check_data(case):
     return {'nt': ok, 'evals': 3, 'cls': ['data-' + chain]}
 
 
-def raw_string(hrp, data5):
-    """bech32 string with a VALID checksum over arbitrary 5-bit data (reference arithmetic)"""
-    pm = R.polyrem(R.hrp_expand(hrp) + list(data5) + [0] * 6) ^ 1
+def raw_string(hrp, data5, const=1):
+    """bech32 string with a VALID checksum over arbitrary 5-bit data (reference arithmetic); const != 1 gives the checksum of
+    a DIFFERENT code (0x2bc830a3 = Bech32m, BIP350), which BIP173 decoding must refuse"""
+    pm = R.polyrem(R.hrp_expand(hrp) + list(data5) + [0] * 6) ^ const
     return hrp + '1' + ''.join(CH[x] for x in list(data5) + [(pm >> 5 * (5 - i)) & 31 for i in range(6)])
 
 
